@@ -174,7 +174,39 @@ func init() {
 			}
 		}
 
+		// src/build/filegroup.go: what guards the replacement of one filegroup output, and in which order
+		// it is checked, removed and re-created (Model/C31.v SharedDir: PCheck, PSnap..PRmdir, PLink)
+		_, ff := parseFile("src/build/filegroup.go")
+		fgWatch := map[string]bool{"Lock": true, "Unlock": true, "isSameFileContent": true, "RemoveAll": true, "EnsureDir": true,
+			"RecursiveCopyOrLinkFile": true, "AcquireExclusiveFileLock": true, "AcquireSharedFileLock": true, "Flock": true,
+			"Rename": true, "renameFile": true}
+		var fgCalls []string
+		fgSkip := map[*ast.CallExpr]bool{}
+		ast.Inspect(findFunc(ff, "filegroupBuilder", "Build").Body, func(n ast.Node) bool {
+			switch x := n.(type) {
+			case *ast.FuncLit:
+				return false
+			case *ast.DeferStmt:
+				if nm := callName(x.Call); fgWatch[nm] {
+					fgCalls = append(fgCalls, "defer "+nm)
+				}
+				fgSkip[x.Call] = true
+			case *ast.CallExpr:
+				if !fgSkip[x] {
+					if nm := callName(x); fgWatch[nm] {
+						fgCalls = append(fgCalls, nm)
+					}
+				}
+			}
+			return true
+		})
+		if len(fgCalls) == 0 {
+			failShape("filegroupBuilder.Build: none of the watched calls found")
+		}
+
 		return genHeader +
+			"(* watched calls of filegroupBuilder.Build, in source order *)\n" +
+			"Definition filegroup_build_calls : list string := " + coqStringList(fgCalls) + ".\n" +
 			"(* calls of buildTarget's local branch and what follows it, every occurrence, in source order *)\n" +
 			"Definition build_calls : list string := " + coqStringList(calls) + ".\n" +
 			"Definition target_lock_arg : string := " + coqString(lockArg) + ".\n" +
